@@ -523,6 +523,11 @@ def handleTx (ds : DS) (j : Json) : IO DS := do
           | some x => ds ← finding ds "monitor" "C05" "claim_admission" s!"accepted although {x}: {m.compress}"
           | none => pure ()
           for x in ShieldD.monClaimLock pre.sh ds.shield holder pool purchase loss do ds ← finding ds "monitor" "C05" "claim_lock_exact" x
+          if ds.hasStk then
+            ds := stat ds "mon.c09.claim_secures_stake"
+            let endTime := ds.t + 2 * pre.g.params.votingPeriod
+            for x in ShieldD.monClaimSecuresStake pre.sh ds.shield loss endTime (ds.stk.ubds.map (fun u => (u.del, u.time, u.balance))) do
+              ds ← finding ds "monitor" "C09,C06" "claim_lock_holds_the_stake" x
           for p in pre.sh.providers do
             for x in ShieldD.monOnlyPostponed pre.sh ds.shield p.addr do ds ← finding ds "monitor" "C07" "claims_only_postpone" x
       | "cert.revoke" =>
@@ -567,6 +572,12 @@ def handleTx (ds : DS) (j : Json) : IO DS := do
       | none => pure ()
   if ds.hasCvm then
     for m in msgs do
+      -- C17: a plain bank send to a contract runs the contract's code: an endless loop uses up the whole allowance there too
+      if J.strOf m "t" == "bank.send" && J.strOf m "toKind" == "loop" && code != 0 && msgs.length == 1 &&
+          (((J.strOf j "log").splitOn "out of gas").length > 1 || ((J.strOf j "log").splitOn "InsufficientGas").length > 1) then
+        ds := stat ds "mon.c17.send_to_loop_charged"
+        if J.intOf j "gasUsed" * 10 < J.intOf j "gasWanted" * 9 then
+          ds ← finding ds "monitor" "C17" "failed_execution_is_charged" s!"a bank send to a contract that ran out of gas in an endless loop was charged {J.intOf j "gasUsed"} of {J.intOf j "gasWanted"} ({J.strOf j "log"})"
       -- C17: work done by a constructor is charged even when the result cannot be committed
       if J.strOf m "t" == "cvm.deploy" && J.has m "minGas" && msgs.length == 1 &&
           (code == 0 || ((J.strOf j "log").splitOn "failed to execute message").length > 1) then   -- the message ran (not refused by the ante handler)
